@@ -56,6 +56,75 @@ theorem seq_output_concat_inline {α} (kind : SeqKind) (items : Nat → Item) (e
       = (accepted (seqInlineM (α := α) kind items) seqInit es).filterMap nextOf :=
   outVals_run_filterMap _ nextOf (fun st e h => seq_inline_step_out kind items st e h) es _ seq_init_inv.wf
 
+/-- the source ids of the delivered notifications are non-decreasing for the inline hand-over too -/
+theorem seq_output_sorted_inline {α} (kind : SeqKind) (items : Nat → Item) (es : List (Ev α)) :
+    ((accepted (seqInlineM (α := α) kind items) seqInit es).map (·.1)).Pairwise (· ≤ ·) :=
+  (gen_ids_sorted _ items (fun st e h => seq_inline_step_inv kind items st e h) (seq_inline_subs_step kind items)
+    es _ seq_init_inv).2
+
+/-- **repeat_n_subscribes_n_inline.** repeat(n) under the inline hand-over: subscribe ids `0,1,…` without gaps, at most n,
+exactly n when the output completes. -/
+theorem repeat_n_subscribes_n_inline {α} (n : Nat) (es : List (Ev α)) :
+    let m := seqInlineM (α := α) .concat (itemsCount (some n))
+    (∃ c, c ≤ n ∧ subsOf (run m seqInit es) = List.range c) ∧
+    (Notif.completed ∈ emits (run m seqInit es) → subsOf (run m seqInit es) = List.range n) := by
+  intro m
+  have hinv : ∀ st e, SInv st → SInv (step m st e).1 := fun st e h => seq_inline_step_inv .concat _ st e h
+  have hsub := seq_inline_subs_step (α := α) .concat (itemsCount (some n))
+  have hcount := gen_run_count m _ hinv hsub es _ seq_init_inv
+  have hle := gen_idx_le_count m n hinv hsub es _ seq_init_inv (Nat.zero_le _)
+  have h0 : List.range seqInit.s.idx = [] := rfl
+  rw [h0, List.nil_append] at hcount
+  refine ⟨⟨_, hle, hcount⟩, ?_⟩
+  intro hc
+  obtain ⟨j, _, hj2, hj3⟩ := gen_completed_run m _ hinv hsub
+    (fun st e h hc => concat_inline_completed_step _ st e h hc) es _ seq_init_inv hc
+  have : n ≤ j := by
+    simp only [itemsCount] at hj3
+    split at hj3
+    · cases hj3
+    · omega
+  have hfin : (final m seqInit es).s.idx = n := by omega
+  rw [hcount]; exact congrArg List.range hfin
+
+/-- **retry_at_most_n_inline / retry_stops_on_completion_inline.** -/
+theorem retry_at_most_n_inline {α} (n : Nat) (es : List (Ev α)) :
+    ∃ c, c ≤ n ∧ subsOf (run (seqInlineM (α := α) .catch (itemsCount (some n))) seqInit es) = List.range c := by
+  have hinv : ∀ st e, SInv st → SInv (step (seqInlineM (α := α) .catch (itemsCount (some n))) st e).1 :=
+    fun st e h => seq_inline_step_inv .catch _ st e h
+  have hsub := seq_inline_subs_step (α := α) .catch (itemsCount (some n))
+  have hcount := gen_run_count _ _ hinv hsub es _ seq_init_inv
+  have h0 : List.range seqInit.s.idx = [] := rfl
+  rw [h0, List.nil_append] at hcount
+  exact ⟨_, gen_idx_le_count _ n hinv hsub es _ seq_init_inv (Nat.zero_le _), hcount⟩
+
+theorem retry_stops_on_completion_inline {α} (items : Nat → Item) (pre post : List (Ev α)) (k : Nat)
+    (hk : k ∈ (final (seqInlineM (α := α) .catch items) seqInit pre).p.live) :
+    let m := seqInlineM (α := α) .catch items
+    subsOf (run m seqInit (pre ++ .src k .completed :: post)) = subsOf (run m seqInit pre) ∧
+    emits (run m seqInit (pre ++ .src k .completed :: post)) = emits (run m seqInit pre) ++ [.completed] := by
+  intro m
+  have hI := seq_inline_final_inv (α := α) .catch items pre _ seq_init_inv
+  have hwf := hI.wf
+  have h3 : (final m seqInit pre).s.pending = false := by
+    rcases hI.one with h1 | ⟨_, _, h3⟩
+    · rw [h1] at hk; cases hk
+    · exact h3
+  have key : ∀ s : SeqSt, s.pending = false →
+      actEmits (seqInlineHandler (α := α) .catch items s k .completed).2 = [Notif.completed] ∧
+      actSubs (seqInlineHandler (α := α) .catch items s k .completed).2 = [] := by
+    intro s hs; simp [seqInlineHandler, seqHandler, seqTick, hs, actEmits, actSubs]
+  have hacts : actEmits (m.handler (final m seqInit pre).s k .completed).2 = [Notif.completed] := (key _ h3).1
+  have hsubs : actSubs (m.handler (final m seqInit pre).s k .completed).2 = [] := (key _ h3).2
+  have hd := step_src_done_of_terminal m (final m seqInit pre) k .completed hk (by rw [hacts]; rfl)
+  constructor
+  · rw [run_append, run_cons, subsOf_append, subsOf_append, subsOf_step_src _ _ _ _ hk,
+      seq_inline_subs_done .catch items post _ (step_WF m _ _ hwf) hd, hsubs]
+    simp
+  · rw [run_append, run_cons, emits_append, emits_append, emits_step_src m _ k _ hwf hk, hacts,
+      emits_run_done m post _ (step_WF m _ _ hwf) hd]
+    simp [cut, Notif.isTerminal]
+
 /-- non-vacuity (inline): source 0 completes inside its subscribe, the action runs inside that completion and subscribes
 source 1, which stays subscribed and delivers later -/
 example :
